@@ -18,13 +18,21 @@ class InjectedFault(RuntimeError):
     pass
 
 
+class ScalarVS(list):
+    """Voxel sizes equal on every axis and handed to ``darsia.Grid`` as ONE float."""
+
+
 def voxel_sizes(dim, kind):
+    if kind == "scalar":
+        return ScalarVS([0.5] * dim)
     return [1.0] * dim if kind == "unit" else list(VS[dim])
 
 
 def make_grid(shape, vs):
     import darsia
 
+    if isinstance(vs, ScalarVS):
+        return darsia.Grid(tuple(shape), float(vs[0]))
     return darsia.Grid(tuple(shape), list(vs))
 
 
@@ -225,12 +233,14 @@ class Run:
     pass
 
 
-def run_solver(method, shape, vs, m1, m2, o, weight=None, fault_at=None, sched=None, then=None):
+def run_solver(method, shape, vs, m1, m2, o, weight=None, fault_at=None, sched=None, then=None, then_fault_at=None):
     """Execute the real solver once.
 
     fault_at: 1-based index of the in-loop linear_solve call (= iteration index + 1) that raises once.
     sched:    mc.fault.Scheduler; every in-loop linear_solve call is a choice point
               {0: real answer, 1: raise} (used instead of fault_at).
+    then:     a second pair computed on the SAME solver object afterwards (-> res.second);
+    then_fault_at: in-loop linear_solve call of that second computation that raises once.
     """
     import darsia
     import darsia.measure.wasserstein as W
@@ -255,7 +265,7 @@ def run_solver(method, shape, vs, m1, m2, o, weight=None, fault_at=None, sched=N
     res.obj = obj
     orig_ls = obj.linear_solve
     orig_solve = obj._solve
-    state = {"in_solve": False, "loop_calls": None}
+    state = {"in_solve": False, "loop_calls": None, "fault_at": fault_at, "sched": sched}
 
     def ls(*a, **k):
         idx = res.calls
@@ -265,11 +275,11 @@ def run_solver(method, shape, vs, m1, m2, o, weight=None, fault_at=None, sched=N
         in_loop = idx >= 1 and (method == "newton" or len(a) == 2)
         if in_loop:
             res.loop_calls += 1
-        if fault_at is not None and in_loop and res.loop_calls == fault_at:
+        if state["fault_at"] is not None and in_loop and res.loop_calls == state["fault_at"]:
             res.faulted_at = res.loop_calls
             raise InjectedFault(f"injected failure of the linear solve of iteration {res.loop_calls - 1}")
-        if sched is not None and in_loop:
-            if sched.choose(2) == 1:
+        if state["sched"] is not None and in_loop:
+            if state["sched"].choose(2) == 1:
                 res.faulted_at = res.loop_calls
                 raise InjectedFault(f"injected failure of the linear solve of iteration {res.loop_calls - 1}")
         # conditioning of the system handed to the solver (flux-block diagonal = face weights)
@@ -334,8 +344,12 @@ def run_solver(method, shape, vs, m1, m2, o, weight=None, fault_at=None, sched=N
         first_ratio, first_scale, first_captured = res.weight_ratio, res.system_scale, res.captured
         res.weight_ratio, res.system_scale = 1.0, 0.0
         res.captured = None
+        first_counts = (res.calls, res.loop_calls, res.faulted_at, res.initial_solution)
+        res.calls, res.loop_calls, res.faulted_at = 0, 0, None
+        state["fault_at"], state["sched"] = then_fault_at, None
         try:
             sec.distance, sec.info = obj(make_image(then[0], vs), make_image(then[1], vs))
+            sec.loop_calls, sec.faulted_at = res.loop_calls, res.faulted_at
             sec.captured = res.captured
             sec.solution = np.asarray(sec.captured[1], dtype=float)
             sec.flux = sec.solution[: grid.num_faces]
@@ -344,6 +358,7 @@ def run_solver(method, shape, vs, m1, m2, o, weight=None, fault_at=None, sched=N
         except Exception as e:  # noqa: BLE001
             sec.exc = e
         res.weight_ratio, res.system_scale, res.captured = first_ratio, first_scale, first_captured
+        res.calls, res.loop_calls, res.faulted_at, res.initial_solution = first_counts
         res.second = sec
     return res
 
